@@ -119,9 +119,98 @@ def crafted_nested_invariant(s):
     return pr
 
 
+def crafted_nested_quantifiers(s):
+    """conditions with a quantifier nested inside another one, including an inner quantifier that SHADOWS the variable of the enclosing one
+    (same name and type) next to a sub-formula that reads the outer variable, in both argument orders: `Forall x (p(x) and Exists x q(x))`,
+    `Exists x ((Exists x q(x)) and not p(x))`, distinct-name nestings, two-variable quantifiers.  Used as precondition, effect condition and goal"""
+    import random
+    from unified_planning.shortcuts import (Problem, Fluent, InstantaneousAction, UserType, Object, BoolType, IntType, Variable, Not, And, Or,
+                                            Exists, Forall, Implies)
+    rng = random.Random(s)
+    pr = Problem(f"nestedq{s}")
+    T = UserType("T")
+    objs = [Object(f"o{i}", T) for i in range(3)]
+    pr.add_objects(objs)
+    p, q = Fluent("p", BoolType(), x=T), Fluent("q", BoolType(), x=T)
+    cnt, done = Fluent("cnt", IntType(0, 3)), Fluent("done", BoolType())
+    pr.add_fluent(p, default_initial_value=False)
+    pr.add_fluent(q, default_initial_value=False)
+    pr.add_fluent(cnt, default_initial_value=0)
+    pr.add_fluent(done, default_initial_value=False)
+    for o in objs:
+        pr.set_initial_value(p(o), rng.random() < 0.6)
+        pr.set_initial_value(q(o), rng.random() < 0.4)
+    x, y = Variable("x", T), Variable("y", T)
+
+    def formula():
+        inner_var = x if rng.random() < 0.7 else y          # 70%: shadowing
+        inner = (Exists if rng.random() < 0.6 else Forall)(rng.choice([q(inner_var), Not(q(inner_var)), Or(q(inner_var), p(inner_var))]), inner_var)
+        outer_atom = rng.choice([p(x), Not(p(x)), q(x)])
+        conn = rng.choice([And, Or, Implies])
+        body = conn(outer_atom, inner) if rng.random() < 0.5 else conn(inner, outer_atom)
+        if rng.random() < 0.2:
+            body = And(body, (Exists if rng.random() < 0.5 else Forall)(Or(p(x), q(y)), x, y))
+        return (Forall if rng.random() < 0.5 else Exists)(body, x)
+    test = InstantaneousAction("test")
+    test.add_precondition(formula())
+    test.add_effect(done, True)
+    count = InstantaneousAction("count")
+    count.add_increase_effect(cnt, 1, formula())
+    count.add_precondition(Not(done))
+    flip_p = InstantaneousAction("flip_p", a=T)
+    flip_p.add_effect(p(flip_p.a), True, Not(p(flip_p.a)))
+    flip_p.add_effect(p(flip_p.a), False, p(flip_p.a))
+    set_q = InstantaneousAction("set_q", a=T)
+    set_q.add_effect(q(set_q.a), rng.random() < 0.7)
+    for a in (test, count, flip_p, set_q):
+        pr.add_action(a)
+    pr.add_goal(formula() if rng.random() < 0.6 else done)
+    return pr
+
+
+def crafted_duplicate_assignments(s):
+    """one ground action that assigns the SAME numeric / object fluent twice (two conditional effects, or an increase by 0 and an assignment),
+    where in some reachable states the first assignment re-assigns the value the fluent already has and the second one a different value:
+    a conflict in those states only"""
+    import random
+    from unified_planning.shortcuts import (Problem, Fluent, InstantaneousAction, UserType, Object, BoolType, IntType, Not, And, Or, Equals, GE, LE, Int)
+    rng = random.Random(s)
+    pr = Problem(f"dupassign{s}")
+    T = UserType("T")
+    objs = [Object(f"o{i}", T) for i in range(3)]
+    pr.add_objects(objs)
+    lever, gear, done = Fluent("lever", IntType(0, 3)), Fluent("gear", T), Fluent("done", BoolType())
+    pr.add_fluent(lever, default_initial_value=rng.randint(0, 1))
+    pr.add_fluent(gear, default_initial_value=objs[0])
+    pr.add_fluent(done, default_initial_value=False)
+    shift = InstantaneousAction("shift")
+    shift.add_precondition(LE(lever, 2))
+    shift.add_increase_effect(lever, 1)
+    drive = InstantaneousAction("drive")
+    a, b = rng.sample([1, 2, 3], 2)
+    shape = rng.randint(0, 2)
+    if shape == 0:
+        drive.add_effect(lever, Int(a), Equals(lever, a) if rng.random() < 0.6 else GE(lever, a))       # re-assigns the current value when lever == a
+        drive.add_effect(lever, Int(b), GE(lever, 1))
+    elif shape == 1:
+        drive.add_increase_effect(lever, 0, GE(lever, 1))
+        drive.add_effect(lever, Int(b), GE(lever, a))
+    else:
+        drive.add_effect(lever, Int(b), GE(lever, 1))
+        drive.add_effect(lever, Int(a), GE(lever, a))
+    drive.add_effect(done, True)
+    engage = InstantaneousAction("engage", x=T, y=T)
+    engage.add_effect(gear, engage.x, Equals(gear, engage.x) if rng.random() < 0.5 else Not(done))   # object fluent: same pattern over parameters
+    engage.add_effect(gear, engage.y, Or(done, GE(lever, 1)))
+    for act in (shift, drive, engage):
+        pr.add_action(act)
+    pr.add_goal(done)
+    return pr
+
+
 def problems(seed, count, features=None, need=None):
-    """yields (seed_i, problem) for well-formed generated problems whose initial state is legal; every eighth problem comes from the
-    crafted family `crafted_nested_invariant` when the caller does not restrict the grammar (features=None: C01, C02) or asks for it"""
+    """yields (seed_i, problem) for well-formed generated problems whose initial state is legal; three of every eight problems come from the
+    crafted families `crafted_nested_invariant` / `crafted_nested_quantifiers` / `crafted_duplicate_assignments` when the caller does not restrict the grammar (features=None: C01, C02) or asks for it"""
     i = 0
     produced = 0
     while produced < count and i < count * 6:
@@ -132,6 +221,10 @@ def problems(seed, count, features=None, need=None):
                 warnings.simplefilter("ignore")
                 if i % 8 == 3 and need is None and (features is None or features.get("crafted_nested")):
                     pr = crafted_nested_invariant(s)
+                elif i % 8 == 6 and need is None and (features is None or features.get("crafted_nested")):
+                    pr = crafted_nested_quantifiers(s)
+                elif i % 8 == 1 and need is None and (features is None or features.get("crafted_nested")):
+                    pr = crafted_duplicate_assignments(s)
                 else:
                     pr = Gen(s, features).problem(f"g{s}")
         except Exception:  # noqa
